@@ -3,6 +3,8 @@ import Proofs.F32Ops
 import Proofs.Cbrt
 import Proofs.Expf
 import Proofs.ExpfTop
+import Proofs.CbrtOdd
+import Proofs.CbrtReal
 import Mathlib.Data.Nat.Cast.Order.Field
 /-! C18 (and the float->int part of C07 / C13): the fast math helpers are total. `exp2` is the only place where the
 crates convert a float to an integer without a check; the theorem below shows that, for EVERY 32-bit pattern (NaN,
@@ -338,5 +340,32 @@ theorem expf_overflow (B : Build) (hB : B.fastmath = true) (x : Nat) (hx : F32.F
   have : MathM.expf B x = MathM.expfFast B.fma x := by unfold MathM.expf; rw [if_pos hB]
   rw [this, Expf.expf_hi B.fma x hx h1 h2]
   rfl
+
+
+/-- every real has a real cube root -/
+theorem exists_cube_root (v : ℝ) : ∃ c : ℝ, c ^ 3 = v := by
+  by_cases h : 0 ≤ v
+  · exact ⟨Cbrt.cbrtR v, Cbrt.cbrtR_cube_pos v h⟩
+  · refine ⟨-Cbrt.cbrtR (-v), ?_⟩
+    have := Cbrt.cbrtR_cube_pos (-v) (by linarith)
+    rw [Odd.neg_pow (by decide : Odd 3), this]; ring
+
+/-- **cbrtf is odd, bit for bit** (fastmath build): for every normal argument, `cbrtf(-x)` is `cbrtf(x)` with the sign bit
+flipped. Structural: the seed keeps the sign bit and every conversion and binary64 operation of the two Newton steps is
+sign-symmetric (`Proofs/F32Odd.lean`, `Proofs/CbrtOdd.lean`; all sums add terms of equal sign, so no cancellation to `+0`);
+the NaN alternative of `CbrtOdd.cbrtfFast_opp` is excluded by the finiteness part of `cbrtf_accurate`. -/
+theorem cbrtf_odd (B : Build) (hB : B.fastmath = true) (x : Nat) (hx : Cbrt.Normal x) :
+    MathM.cbrtf B (F32.neg x) = F32.neg (MathM.cbrtf B x) := by
+  have e : ∀ y, MathM.cbrtf B y = MathM.cbrtfFast y := by intro y; unfold MathM.cbrtf; rw [if_pos hB]
+  rw [e, e]
+  have hlt : x < 4294967296 := by
+    obtain ⟨s, E, f, hs, hE1, hE2, hf, rfl⟩ := hx; omega
+  rcases CbrtOdd.cbrtfFast_opp x hlt with h | ⟨_, h2⟩
+  · exact h
+  · exfalso
+    obtain ⟨c, hc⟩ := exists_cube_root (F32.toReal x)
+    obtain ⟨⟨n, m, e', hd⟩, _⟩ := Cbrt.cbrtf_close x hx c hc
+    rw [h2, F32.decode_qnan] at hd
+    cases hd
 
 end C18
